@@ -469,7 +469,7 @@ async fn run_t<TC: ModelCfg>(spec: Spec, do_c06: bool, do_c07: bool) -> Out {
         if do_c07 {
             let all: Vec<(u64, Vec<u8>, u64)> = vers.iter().rev().map(|v| (v.version, v.value.clone(), v.epoch)).collect();
             let k = all.len();
-            let mv = rng.below(12);
+            let mv = rng.below(14);
             match mv {
                 0 | 1 => {
                     // hide the newest j versions; absences that cannot be shown honestly are forged at every anchor
@@ -659,6 +659,69 @@ async fn run_t<TC: ModelCfg>(spec: Spec, do_c06: bool, do_c07: bool) -> Out {
                         }
                         p.update_proofs[i].value = AkdValue(vec![]);
                         judge_history::<TC>(&mut out, &model, &pk, cur, root, &l, p, None, "tombstone_substituted");
+                    }
+                }
+                11 => {
+                    // the stale-marker part of one update proof taken away or replaced by another entry's
+                    if let Some(mut p) = forge.history(&l, &all, cur) {
+                        let i = rng.below(k as u64) as usize;
+                        if p.update_proofs[i].version <= 1 {
+                            continue;
+                        }
+                        match rng.below(3) {
+                            0 => {
+                                p.update_proofs[i].previous_version_proof = None;
+                                p.update_proofs[i].previous_version_vrf_proof = None;
+                            }
+                            1 => {
+                                let j = (i + 1) % k;
+                                if p.update_proofs[j].previous_version_proof.is_none() || j == i {
+                                    continue;
+                                }
+                                p.update_proofs[i].previous_version_proof = p.update_proofs[j].previous_version_proof.clone();
+                            }
+                            _ => {
+                                // the stale marker "proved" by the fresh leaf of the same version
+                                p.update_proofs[i].previous_version_proof = Some(p.update_proofs[i].existence_proof.clone());
+                            }
+                        }
+                        // a MostRecent slice that starts exactly at the tampered entry, and the complete history
+                        let hp_slice = Some(i + 1);
+                        let mut sliced = p.clone();
+                        sliced.update_proofs.truncate(i + 1);
+                        if let Some(q) = forge.history(&l, &all[..i + 1], cur) {
+                            sliced.past_marker_vrf_proofs = q.past_marker_vrf_proofs;
+                            sliced.existence_of_past_marker_proofs = q.existence_of_past_marker_proofs;
+                            sliced.future_marker_vrf_proofs = q.future_marker_vrf_proofs;
+                            sliced.non_existence_of_future_marker_proofs = q.non_existence_of_future_marker_proofs;
+                            // the truth for MostRecent(i+1) is that very list, so acceptance is fine ONLY IF every check passed;
+                            // what is judged is that the tampered stale-marker part makes it fail
+                            out.checks += 1;
+                            let r = akd::client::key_history_verify::<TC>(&pk, root, cur, AkdLabel(l.clone()), sliced, HistoryVerificationParams::Default { history_params: to_hp(hp_slice) });
+                            if r.is_ok() {
+                                out.v("c07_missing_stale_marker_proof_accepted", format!("label {}: a MostRecent({}) answer whose oldest update proof (version {}) has no valid proof that the previous version was retired verifies", short(&l), i + 1, all[i].0), "stale_marker_part_tampered");
+                            } else {
+                                out.p("c07_stale_marker_part_tampered_slice_rejected");
+                            }
+                        }
+                        out.checks += 1;
+                        let r = akd::client::key_history_verify::<TC>(&pk, root, cur, AkdLabel(l.clone()), p, HistoryVerificationParams::Default { history_params: HistoryParams::Complete });
+                        if r.is_ok() {
+                            out.v("c07_missing_stale_marker_proof_accepted", format!("label {}: a complete history whose update proof of version {} has no valid proof that the previous version was retired verifies", short(&l), all[i].0), "stale_marker_part_tampered");
+                        } else {
+                            out.p("c07_stale_marker_part_tampered_complete_rejected");
+                        }
+                    }
+                }
+                12 => {
+                    // two versions claiming the same epoch (the older entry takes the newer one's epoch)
+                    if k < 2 {
+                        continue;
+                    }
+                    if let Some(mut p) = forge.history(&l, &all, cur) {
+                        let i = rng.range(1, k as u64 - 1) as usize;
+                        p.update_proofs[i].epoch = p.update_proofs[i - 1].epoch;
+                        judge_history::<TC>(&mut out, &model, &pk, cur, root, &l, p, None, "two_versions_one_epoch");
                     }
                 }
                 _ => {
